@@ -273,6 +273,8 @@ def run(ck):
              "source level: random NAL-unit/AAC sequences (types 1,5,6 mostly, in-band 7/8/9, rare others; empty SPS/PPS; AAC up to 8184 bytes) "
              "through the packetizers and through mpegts.NewMuxer; full byte stream compared with the extracted model and the independent "
              "demultiplexer oracle applied to the implementation's bytes; non-trivial = at least one frame is actually written; "
+             "HLS path: realistic interleaved video/AAC sequences (different AAC sizes, several per 100 ms group, key frames rolling segments over) "
+             "through the packetizers into a real hls.SegmentGenerator, every segment read and checked by ok_hls; a deferring FrameWriter stream; "
              "separate malformed stream (empty video payloads); NewADTSHeader and CRC-32/MPEG component streams"
              % (top, big // 1024),
         trusted=["the ISO/IEC 13818-1 / 13818-7 / H.264 Annex B reading embodied in Model/C09TsDemux.v, C09Adts.v (adts_parse1) and "
